@@ -123,7 +123,13 @@ bool splinetable<Alloc>::read_fits(const std::string& filePath){
 			fits_report_error(stderr, error);
 		}
 	} cleanup(fits);
-	return(read_fits_core(fits, filePath));
+	try{
+		return(read_fits_core(fits, filePath));
+	}catch(...){
+		//do not keep (and later try to destroy) a partially read table
+		clear();
+		throw;
+	}
 }
 	
 template<typename Alloc>
@@ -149,7 +155,13 @@ bool splinetable<Alloc>::read_fits_mem(void* buffer, size_t buffer_size){
 			fits_report_error(stderr, error);
 		}
 	} cleanup(fits);
-	return(read_fits_core(fits, "memory 'file'"));
+	try{
+		return(read_fits_core(fits, "memory 'file'"));
+	}catch(...){
+		//do not keep (and later try to destroy) a partially read table
+		clear();
+		throw;
+	}
 }
 	
 template<typename Alloc>
@@ -217,8 +229,8 @@ bool splinetable<Alloc>::read_fits_core(fitsfile* fits, const std::string& fileP
 				aux[i] = allocate<char_ptr>(2);
 				aux[i][0] = aux[i][1] = NULL;
 				aux[i][0] = allocate<char>(keylen);
-				aux[i][1] = allocate<char>(valuelen);
 				std::copy(key,key+keylen,aux[i][0]);
+				aux[i][1] = allocate<char>(valuelen);
 				//remove stupid quotes mandated by FITS, but not removed by cfitsio on reading
 				//Note that we do not attempt to remove whitespace, because we cannot 
 				//distinguish whitespace included by the user and whitespace pointlessly
@@ -286,8 +298,10 @@ bool splinetable<Alloc>::read_fits_core(fitsfile* fits, const std::string& fileP
 	//arrays which don't depend on the orders or numbers of knots before the
 	//ones which do
 	knots = allocate<double_ptr>(ndim);
+	std::fill(knots,knots+ndim,nullptr); //so that a partially read table can be released
 	nknots = allocate<uint64_t>(ndim);
 	extents = allocate<double_ptr>(ndim);
+	extents[0] = nullptr;
 	extents[0] = allocate<double>(2*ndim);
 	
 	//Read the coefficient table
